@@ -20,7 +20,6 @@ import ast, os, sys, json, hashlib
 
 REPO = os.environ.get('DCMSTACK_REPO', '/repo')
 HERE = os.path.dirname(os.path.abspath(__file__))
-OUT = os.environ.get('GEN_CODE_OUT', os.path.normpath(os.path.join(HERE, '..', 'lean', 'DcmVerif', 'Generated', 'Code.lean')))
 
 CLS = {('global', 'const'): 'gconst', ('global', 'slices'): 'gslices', ('time', 'samples'): 'tsamples',
        ('time', 'slices'): 'tslices', ('vector', 'samples'): 'vsamples', ('vector', 'slices'): 'vslices'}
@@ -83,6 +82,14 @@ class Tr:
                 return '(← %s)' % self.calls[s]
             if isinstance(n, ast.Call) and isinstance(n.func, ast.Name) and n.func.id == 'len' and len(n.args) == 1:
                 return '(%s).length' % self.e(n.args[0])
+            if isinstance(n, ast.Call) and isinstance(n.func, ast.Name) and n.func.id == 'slice':
+                if len(n.args) == 1 and isinstance(n.args[0], ast.Constant) and n.args[0].value is None:
+                    return 'Wrap.Spec.full'
+                if len(n.args) == 2 and isinstance(n.args[1], ast.BinOp) and isinstance(n.args[1].op, ast.Add) \
+                        and self.src(n.args[1].left) == self.src(n.args[0]) and isinstance(n.args[1].right, ast.Constant) \
+                        and n.args[1].right.value == 1:
+                    return '(Wrap.Spec.one %s)' % self.atom(n.args[0])
+                raise Unsupported('slice ' + self.src(n))
             if isinstance(n, ast.Call) and isinstance(n.func, ast.Name) and n.func.id == 'list' and len(n.args) == 1:
                 return self.e(n.args[0])          # list(tuple): a copy of the sequence
             if isinstance(n, ast.Call) and isinstance(n.func, ast.Name) and n.func.id == 'int' and len(n.args) == 1:
@@ -124,6 +131,8 @@ class Tr:
                     and sl.operand.value == 1:
                 return '(%s)[(%s).length - 1]!' % (base, base)
             return '(%s)[%s]!' % (base, self.e(sl))
+        if isinstance(n, ast.BinOp) and isinstance(n.op, ast.Mult) and isinstance(n.left, ast.List) and len(n.left.elts) == 1:
+            return '(List.replicate %s %s)' % (self.atom(n.right), self.atom(n.left.elts[0]))
         if isinstance(n, ast.BinOp) and isinstance(n.op, ast.Add) and (self.is_list(n.left) or self.is_list(n.right)):
             return '(%s ++ %s)' % (self.e(n.left), self.e(n.right))
         if isinstance(n, ast.BinOp):
@@ -263,7 +272,10 @@ class Tr:
                 return ['%slet %s := %s.base' % (ind, a, s.value.id), '%slet %s := %s.sub' % (ind, b, s.value.id)]
             if isinstance(t, ast.Subscript) and isinstance(t.value, ast.Name) and self.is_declared(t.value.id) \
                     and not isinstance(t.slice, ast.Slice):
-                return ['%s%s := (%s).set %s %s' % (ind, t.value.id, t.value.id, self.atom(t.slice), self.atom(s.value))]
+                val = self.atom(s.value)
+                if t.value.id in getattr(self, 'spec_lists', ()) and not val.lstrip('(').startswith('Wrap.Spec'):
+                    val = '(Wrap.Spec.int %s)' % val
+                return ['%s%s := (%s).set %s %s' % (ind, t.value.id, t.value.id, self.atom(t.slice), val)]
             if not isinstance(t, ast.Name):
                 raise Unsupported('assignment target ' + self.src(t))
             x = t.id
@@ -429,8 +441,6 @@ class TrGetMeta(Tr):
 
 PRELUDE = '''/- GENERATED by tools/gen_code.py from /repo/src/dcmstack — do not edit. -/
 import DcmVerif.Generated.Tables
-import DcmVerif.Model.Wrap
-import DcmVerif.Model.Valid
 set_option autoImplicit false
 set_option linter.unusedVariables false
 open Cls
@@ -462,17 +472,57 @@ def pyIndex {α : Type} (values : List α) (i : Nat) : Except PyErr α :=
   | some a => .ok a
   | none => .error PyErr.indexError
 
-namespace Py
 '''
+
+GROUP_OF = {
+    'get_valid_classes': 'classes', 'get_multiplicity': 'classes',
+    'get_const_period': 'simplify', '_get_const_period': 'simplify', 'is_constant': 'simplify', 'is_repeating': 'simplify',
+    'meta_valid': 'lookup', 'get_meta_index': 'lookup',
+    'check_valid': 'valid',
+    'subset_shape': 'shapes', 'merge_shape': 'shapes',
+    'split_specs': 'wrapsplit', 'split_trim': 'wrapsplit',
+    'wrap_merge_shape': 'wrapmerge', 'fill_specs': 'wrapmerge',
+    'get_shape_counts': 'stack', 'chk_order_check': 'stack',
+    'get_data_trim': 'data', 'file_idx_volume': 'data', 'file_idx_slice': 'data', 'get_data': 'data',
+}
+GROUP_IMPORTS = {
+    'classes': ['DcmVerif.Generated.PyPrelude'],
+    'simplify': ['DcmVerif.Generated.Code_classes'],
+    'lookup': ['DcmVerif.Generated.PyPrelude'],
+    'valid': ['DcmVerif.Generated.Code_classes', 'DcmVerif.Model.Valid'],
+    'shapes': ['DcmVerif.Generated.PyPrelude'],
+    'wrapsplit': ['DcmVerif.Generated.PyPrelude', 'DcmVerif.Model.Wrap'],
+    'wrapmerge': ['DcmVerif.Generated.PyPrelude', 'DcmVerif.Model.Wrap'],
+    'stack': ['DcmVerif.Generated.PyPrelude'],
+    'data': ['DcmVerif.Generated.PyPrelude', 'DcmVerif.Model.Wrap'],
+}
+GEN_DIR = os.environ.get('GEN_CODE_DIR', os.path.normpath(os.path.join(HERE, '..', 'lean', 'DcmVerif', 'Generated')))
+
+
+def group_of(name):
+    return GROUP_OF.get(name.split(':')[0].strip(), 'classes')
+
 
 
 def translate():
     missing = []
-    out = [PRELUDE]
+    bufs = {grp: [] for grp in GROUP_IMPORTS}
+
+    class _Out:
+        """appends go to the buffer of the group of the function being emitted"""
+        cur = 'classes'
+
+        def append(self, x):
+            bufs[self.cur].append(x)
+
+        def extend(self, xs):
+            bufs[self.cur].extend(xs)
+    out = _Out()
     dm = ast.parse(open(os.path.join(REPO, 'src', 'dcmstack', 'dcmmeta.py')).read())
     ds = ast.parse(open(os.path.join(REPO, 'src', 'dcmstack', 'dcmstack.py')).read())
 
     def emit(name, sig, fn_body, tr, doc):
+        out.cur = group_of(name)
         try:
             tr.mutable = tr.assigned_more_than_once(fn_body)
             tr.declared = []
@@ -543,6 +593,74 @@ def translate():
              blk + [ast.parse('return output_shape').body[0]], tr,
              'the shape of the result of `DcmMetaExtension.from_sequence` (dcmmeta.py): padded with ones up to the merge '
              'axis, the number of inputs on it; the `while` loop is bounded by `dim + 1`')
+    # ---- NiftiWrapper.split: the index expression per axis and the trimming loop
+    f = find_func(dm, 'NiftiWrapper', 'split')
+    init = loop = None
+    if f is not None:
+        for s in f.body:
+            if isinstance(s, ast.Assign) and isinstance(s.targets[0], ast.Name) and s.targets[0].id == 'slices':
+                init = s
+            if isinstance(s, ast.For) and isinstance(s.target, ast.Name) and s.target.id == 'idx':
+                loop = s
+    spec_if = trim_while = None
+    if loop is not None:
+        for s in loop.body:
+            if isinstance(s, ast.If) and 'slices[dim]' in ast.unparse(s):
+                spec_if = s
+            if isinstance(s, ast.While) and 'split_data' in ast.unparse(s.test):
+                trim_while = s
+    if init is None or spec_if is None:
+        missing.append('split_specs: `slices = [slice(None)] * len(shape)` / `slices[dim] = …` not found')
+    else:
+        tr = Tr({}, {})
+        tr.spec_lists = {'slices'}
+        emit('split_specs', '(shape : List Nat) (dim idx : Nat) : Except PyErr (List Wrap.Spec)',
+             [init, spec_if, ast.parse('return slices').body[0]], tr,
+             'the index expression `NiftiWrapper.split` builds for piece `idx` (dcmmeta.py): `slice(None)` on every axis, '
+             'an integer on a trailing non-spatial split axis, `slice(idx, idx + 1)` on any other split axis')
+    if trim_while is None:
+        missing.append('split_trim: `while split_data.ndim > 3 …` not found')
+    else:
+        tr = Tr({'split_data.ndim': '(split_data.shape).length', 'split_data.shape[-1]': '(split_data.shape)[(split_data.shape).length - 1]!',
+                 'split_data[..., 0]': 'split_data.dropLast0'}, {})
+        tr.while_fuel = '(split_data_.shape).length'
+        emit('split_trim', '{α : Type} (split_data_ : Wrap.Arr α) : Except PyErr (Wrap.Arr α)',
+             [ast.parse('split_data = split_data_').body[0], trim_while, ast.parse('return split_data').body[0]], tr,
+             'the trimming loop of `NiftiWrapper.split` (dcmmeta.py) on the piece\'s voxel array; bounded by its number of axes')
+    # ---- NiftiWrapper.from_sequence: result shape and the index expression the inputs are written through
+    f = find_func(dm, 'NiftiWrapper', 'from_sequence')
+    blk = None
+    ds_init = ds_loop = ds_set = None
+    if f is not None:
+        names = [s.targets[0].id if isinstance(s, ast.Assign) and isinstance(s.targets[0], ast.Name) else None for s in f.body]
+        if 'result_shape' in names:
+            i0 = names.index('result_shape')
+            blk = f.body[i0:i0 + 3]
+        for i, s in enumerate(f.body):
+            if isinstance(s, ast.Assign) and isinstance(s.targets[0], ast.Name) and s.targets[0].id == 'data_slices':
+                ds_init = s
+                if i + 1 < len(f.body) and isinstance(f.body[i + 1], ast.For):
+                    ds_loop = f.body[i + 1]
+        for node in ast.walk(f):
+            if isinstance(node, ast.Assign) and ast.unparse(node.targets[0]) == 'data_slices[dim]':
+                ds_set = node
+    if blk is None or not (len(blk) == 3 and isinstance(blk[1], ast.While)):
+        missing.append('wrap_merge_shape: statements result_shape = … while … result_shape[dim] = … not found')
+    else:
+        tr = Tr({}, {})
+        tr.while_fuel = 'dim + 1'
+        emit('wrap_merge_shape', '(shape : List Nat) (dim n_inputs : Nat) : Except PyErr (List Nat)',
+             blk + [ast.parse('return result_shape').body[0]], tr,
+             'the shape of the array `NiftiWrapper.from_sequence` allocates (dcmmeta.py)')
+    if ds_init is None or ds_loop is None or ds_set is None:
+        missing.append('fill_specs: data_slices statements not found')
+    else:
+        tr = Tr({}, {})
+        tr.spec_lists = {'data_slices'}
+        emit('fill_specs', '(result_shape : List Nat) (dim input_idx : Nat) : Except PyErr (List Wrap.Spec)',
+             [ds_init, ds_loop, ds_set, ast.parse('return data_slices').body[0]], tr,
+             'the index expression input `input_idx` is written through in `NiftiWrapper.from_sequence` (dcmmeta.py): 0 on '
+             'every axis of length one of the result, the input number on the merge axis, `slice(None)` elsewhere')
     # ---- check_valid
     f = find_func(dm, 'DcmMetaExtension', 'check_valid')
     if f is None:
@@ -697,6 +815,7 @@ def translate():
         missing.append('get_data: expected two `file_idx = …` assignments, found %d' % len(exprs))
     else:
         tr = Tr({}, {})
+        out.cur = 'data'
         for nm, ex, sig in (('file_idx_volume', exprs[0], '(stack_shape : List Nat) (vec_idx time_idx : Nat) : Nat'),
                             ('file_idx_slice', exprs[1], '(stack_shape : List Nat) (vec_idx time_idx slice_idx : Nat) : Nat')):
             try:
@@ -704,27 +823,34 @@ def translate():
                 out.append('def %s %s :=\n  %s\n' % (nm, sig, tr.e(ex)))
             except Unsupported as e:
                 missing.append('%s: %s' % (nm, e))
-    out.append('end Py\n')
-    stack_names = ('get_shape_counts', 'chk_order_check', 'get_data_trim', 'get_data', 'file_idx')
-    m_stack = [m for m in missing if m.startswith(stack_names)]
-    m_meta = [m for m in missing if not m.startswith(stack_names)]
-    out.append('/-- functions of dcmmeta.py the translator could not translate (must be empty) -/')
-    out.append('def Gen.codeMissingMeta : List String := [%s]\n' % ', '.join(json.dumps(m) for m in m_meta))
-    out.append('/-- functions of dcmstack.py the translator could not translate (must be empty) -/')
-    out.append('def Gen.codeMissingStack : List String := [%s]\n' % ', '.join(json.dumps(m) for m in m_stack))
-    return '\n'.join(out), missing
+    files = {'PyPrelude': PRELUDE}
+    by_group = {grp: [m for m in missing if group_of(m) == grp] for grp in GROUP_IMPORTS}
+    for grp, lines in bufs.items():
+        text = '/- GENERATED by tools/gen_code.py from /repo/src/dcmstack — do not edit. -/\n'
+        text += ''.join('import %s\n' % im for im in GROUP_IMPORTS[grp])
+        text += 'set_option autoImplicit false\nset_option linter.unusedVariables false\nopen Cls\n\nnamespace Py\n\n'
+        text += '\n'.join(lines) + '\nend Py\n\n'
+        text += '/-- functions of this group the translator could not translate (must be empty for the proofs to build) -/\n'
+        text += 'def Gen.codeMissing_%s : List String := [%s]\n' % (grp, ', '.join(json.dumps(m) for m in by_group[grp]))
+        files['Code_' + grp] = text
+    return files, missing, by_group
 
 
 def main():
-    text, missing = translate()
-    changed = True
-    if os.path.exists(OUT) and open(OUT).read() == text:
-        changed = False
-    if changed:
-        with open(OUT, 'w') as fh:
-            fh.write(text)
-    print(json.dumps({'out': OUT, 'changed': changed, 'missing': missing,
-                      'sha': hashlib.sha256(text.encode()).hexdigest()[:16]}))
+    files, missing, by_group = translate()
+    changed = []
+    h = hashlib.sha256()
+    for name in sorted(files):
+        text = files[name]
+        h.update(text.encode())
+        path = os.path.join(GEN_DIR, name + '.lean')
+        if not (os.path.exists(path) and open(path).read() == text):
+            with open(path, 'w') as fh:
+                fh.write(text)
+            changed.append(name)
+    shas = {n[5:]: hashlib.sha256(files[n].encode()).hexdigest()[:12] for n in files if n.startswith('Code_')}
+    print(json.dumps({'out': GEN_DIR, 'changed': changed, 'missing': missing, 'missing_by_group': by_group,
+                      'sha_by_group': shas, 'sha': h.hexdigest()[:16]}))
 
 
 if __name__ == '__main__':
